@@ -104,6 +104,18 @@ def check_case(rec, case):
     if not o.ok:
         report_failure(rec, o, 'nfa_to_dfa', container=case['container'])
         return
+    if len(R[0]) >= 2 and case.get('requery', True):
+        # same object, changed in place, determinised again (judged against its CURRENT content)
+        q = sorted(N.Q)[-1]
+        N.F ^= {q}
+        key = (sorted(N.Q)[0], case['eps'])
+        if key not in N.delta:
+            N.delta[key] = set()
+        N.delta[key].add(q)
+        o = call(na.nfa_to_dfa, N)
+        if not o.ok:
+            report_failure(rec, o, 'nfa_to_dfa', container=case['container'], after_in_place_change=True)
+            return
     # the notebook generator's route: file -> parse_nfa -> nfa_to_dfa -> print_dfa ; the text
     # must read back (with the set-label convention) as an equivalent total DFA
     if case.get('notebook') and case['eps'] and len(R[1]) > 0:
@@ -137,6 +149,12 @@ def gen_cases(rec, rng, tier):
         for eps in ('', 'ε'):
             for cont in conts:
                 yield {'cls': cls + '/' + cont, 'ref': R, 'eps': eps, 'container': cont, 'notebook': True}
+    for k in (5, 6, 7, 9, 10, 11, 13, 15, 16, 20, 33):
+        if (k + rec.shard) % 2 == 0:
+            for back in (False, True):
+                yield {'cls': 'eps_chain', 'ref': fag.eps_chain(k, back_edge=back, accept_end=(k % 3 != 0)), 'eps': rng.choice(['', 'ε']), 'container': rng.choice(conts), 'notebook': True}
+    for R in fag.thompson_nfas(rng, 60 if thorough else 15):
+        yield {'cls': 'thompson_nfa', 'ref': R, 'eps': rng.choice(['', '_', 'ε']), 'container': rng.choice(conts), 'notebook': rng.random() < 0.3}
     for _ in range(500 if thorough else 120):
         n = rng.randint(1, 7)
         k = rng.randint(0, 3)
